@@ -126,6 +126,9 @@ fn main() {
             dropin::run_enumerated::<flav::PlainDi, flav::SyncDi>(&mut rep, 3, me, shard, nshards);
             dropin::run_enumerated::<flav::PlainUn, flav::SyncUn>(&mut rep, 3, me, shard, nshards);
             dropin::run(&mut rep, programs, len, &mut rng);
+            let mc = args.num("mutating", 20000) / nshards + 1;
+            dropin::run_mutating::<flav::PlainDi, flav::SyncDi>(&mut rep, mc, &mut rng);
+            dropin::run_mutating::<flav::PlainUn, flav::SyncUn>(&mut rep, mc, &mut rng);
         }
         "conc" => {
             watchdog::start(prop.clone());
